@@ -181,7 +181,8 @@ def c_cases(ctx, r, n_cases, per_case):
 				if k > 0.9:
 					m["toa256"] = r.choice((-32768, -1, 0, 1, 32767, 255, 256, -256, -257))
 				legacy = r.random() < 0.5
-				ops.append(("D", m, legacy))
+				# the bit between version and timeslot number is reserved: set by a peer, it changes nothing
+				ops.append(("D", m, legacy, r.random() < 0.12))
 			else:
 				n = r.choice((0, 148, 148, 444))
 				br = {"fn": trxd.rand_fn(r), "tn": r.randrange(8), "pwr": trxd.rand_edge(r, 0, 255),
@@ -197,6 +198,8 @@ def render_c(idx, ops):
 		if op[0] == "D":
 			obj = msgs.to_real(op[1])
 			data = bytes(obj.gen_msg(op[2]))     # encoded by the real toolkit
+			if len(op) > 3 and op[3]:
+				data = bytes([data[0] | 0x08]) + data[1:]
 			out.append("D %s" % data.hex())
 		else:
 			br = op[1]
